@@ -29,13 +29,17 @@ LEVEL_NOTE = ('trusts Python Fraction arithmetic, numpy.linalg.lstsq/eigvalsh an
 RULE = ('chi2: every A over a small integer alphabet (n<=4, m<=3) x every sqivar pattern over {0,1/2,1,2} x right-hand sides, rank-deficient '
         'systems skipped by an exact rational test, plus a 20x3 Vandermonde system with every single/pair of zero weights, plus a conditioning '
         'ladder (templates 1..x^3 in raw pixel number over 30..200 pixels x column scalings 2^+-10/20 x weights x right-hand sides, '
-        'cond(AtWA) 1e2..1e12); pcomp: every data matrix of the listed shapes/alphabets x unit factor {1,1e3,1e-3,1e-7,1e-17} x standardize x covariance; hmf: every (mode, data set, K, epsilon, mask, seed) root and every '
-        'step sequence up to the depth, states merged when (a, g) are bitwise equal; pca: every (data, mask, nkeep, niter, maxiter). '
+        'cond(AtWA) 1e2..1e12) and a residual ladder (b = A x0 + eps r, eps in {1,1e-2,..,1e-8,0}); pcomp: every data matrix of the listed shapes/alphabets x unit factor {1,1e3,1e-3,1e-7,1e-17} x standardize x covariance; hmf: every (mode, data set, K, epsilon, mask, seed) root and every '
+        'step sequence up to the depth, states merged when (a, g) are bitwise equal; hmfseed: every (mode, data, K, mask, seed) x history of the '
+        'global RNG between construction and solve(); pca: every (data, mask, nkeep, niter, maxiter). '
         'Non-trivial: chi2 with more good rows than unknowns or non-unit weights; pcomp with a non-diagonal matrix; HMF transitions that '
         'change the state; pca with at least one masked pixel or nkeep >= 2. Distinct = distinct case tuples (HMF: root + step path).')
 ASSUMPTIONS = ['computechi2: "full rank" is decided exactly (rational arithmetic) on A restricted to rows with non-zero weight; tolerance 1e-9 relative',
                'computechi2 conditioning ladder: tolerance 1e-9*cond(A sqrt(W)) normwise against the exact rational solution of the float inputs; '
                'systems with cond(A^T W A) >= 1e12 are not claimed (skipped and counted)',
+               'computechi2 residual ladder: chi2 allowance 1e-9*chi2 + 2*sqrt(N*chi2)*d + N*d^2 with d = 8*eps*cond(A sqrt(W))*max|b sqrt(w)| '
+               '(the accuracy of a direct sum of squared residuals)',
+               'HMF seed histories: the harness pins the global numpy RNG before each scenario, so "other use of the RNG" is deterministic',
                'pcomp: all tolerances are relative to the largest eigenvalue of the reference matrix (unit independent); eigenvalues must scale '
                'with the square of a unit factor in covariance mode and not at all in correlation/standardised mode',
                'pcomp: columns with zero variance are skipped when a correlation matrix or standardisation is requested; with standardize=True '
@@ -209,6 +213,68 @@ def check_chi2_ladder(case):
         bad.append(('computechi2:dof' + trig, 'got %r expected %r' % (got['dof'], ref['dof'])))
     _LADDER_DEBUG['worst'] = worst          # calibration aid (ratio error/allowance); not part of the verdict
     return bad, 'ok:chi2:ladder:deg%d:cond(AtWA)~1e%d' % (case['deg'], decade)
+
+
+# ---------------------------------------------------------------------- residual ladder (chi2 of nearly exact fits)
+RESID_EPS = [1.0, 1e-2, 1e-4, 1e-6, 1e-8, 0.0]
+RESID_SYSTEMS = ('vander20x3', 'pix30d1', 'pix100d1', 'pix30d2', 'pix60d2', 'int6x2')
+RESID_X0 = [2.0, -3.0, 1.0]
+
+
+def resid_arrays(case):
+    """b = A x0 + eps * r: A x0 is exact in binary floating point (integer / dyadic entries), r a fixed integer pattern."""
+    sysname = case['system']
+    if sysname == 'vander20x3':
+        A = np.array([[1.0, (2 * i - 19) / 32.0, ((2 * i - 19) / 32.0) ** 2] for i in range(20)])
+    elif sysname.startswith('pix'):
+        n, deg = int(sysname[3:sysname.index('d')]), int(sysname[-1])
+        A = np.array([[float(i) ** k for k in range(deg + 1)] for i in range(n)])
+    else:   # 'int6x2'
+        A = np.array([[1.0, -1.0], [1.0, 0.0], [1.0, 1.0], [1.0, 2.0], [0.0, 1.0], [2.0, -1.0]])
+    n, m = A.shape
+    wk = case['wkind']
+    if wk == 'unit':
+        s = np.ones(n)
+    elif wk == 'alt':
+        s = np.array([0.5 if i % 2 else 2.0 for i in range(n)])
+    else:   # 'gaps'
+        s = np.array([0.0 if i % 7 == 3 else (1.0, 1.5, 2.0)[i % 3] for i in range(n)])
+    r = np.array([INTB[(i * 5) % 6] for i in range(n)])
+    b = A.dot(np.array(RESID_X0[:m])) + case['eps'] * r
+    return A, s, b
+
+
+def check_chi2_resid(case):
+    """chi2 must be the sum of squared weighted residuals even when the residuals are tiny compared with b:
+    allowed error 1e-9 chi2 + 2 sqrt(N chi2) d + N d^2 with d = 8 eps_machine cond(A sqrt(W)) max|b sqrt(w)|, which a direct residual sum meets."""
+    from pydl.pydlutils.math import computechi2
+    A, s, b = resid_arrays(case)
+    n, m = A.shape
+    ref = chi2_reference([[Fraction(v) for v in row] for row in A.tolist()], [Fraction(v) for v in s.tolist()], b.tolist())
+    if ref is None:
+        return None, 'skip:rank-deficient'
+    sv = np.linalg.svd((A * s[:, None])[s > 0], compute_uv=False)
+    condA = float(sv[0] / sv[-1])
+    try:
+        c = computechi2(b.copy(), s.copy(), A.copy())
+        got = float(c.chi2)
+        ac = np.asarray(c.acoeff, dtype=float)
+    except Exception as e:
+        return [('computechi2:exception:%s' % type(e).__name__, repr(e))], 'exc'
+    # each weighted residual can be formed to delta = 8 eps cond |b sqrt(w)|_max at best, so a direct residual sum is good to
+    # 2 sqrt(N chi2) delta + N delta^2 (cross term + floor); exact fits must give chi2 within the floor of zero
+    delta = 8 * np.finfo(float).eps * condA * float(np.abs(b * s).max())
+    allowed = 1e-9 * ref['chi2'] + 2.0 * np.sqrt(n * ref['chi2']) * delta + n * delta * delta
+    err = abs(got - ref['chi2'])
+    _LADDER_DEBUG['resid'] = err / allowed if allowed > 0 else float('inf')
+    bad = []
+    trig = 'exact-fit' if case['eps'] == 0 else 'resid/b~%g' % case['eps']
+    if not err <= allowed:
+        bad.append(('computechi2:chi2:nearly-exact-fit', '%s: chi2 %r, sum of squared weighted residuals %r (allowed error %.3g)'
+                    % (trig, got, ref['chi2'], allowed)))
+    if not _close(ac, ref['acoeff'], 1e-9 * max(1.0, condA)):
+        bad.append(('computechi2:acoeff', 'got %s expected %s' % (ac.tolist(), ref['acoeff'])))
+    return bad, 'ok:chi2:resid:%s' % trig
 
 
 # ====================================================================== pcomp
@@ -679,6 +745,57 @@ def check_hmfrun(case):
     return bad, label
 
 
+SEED_HISTORIES = ('draw', 'construct-other', 'solve-other', 'two-same-seed-in-order', 'two-same-seed-reversed')
+
+
+def check_hmfseed(case):
+    """'A fixed seed gives identical results' whatever happens to the global numpy RNG between construction and solve()."""
+    from pydl.pydlspec2d.spec1d import HMF
+    cfg = root_cfg(case)
+    nn = cfg['mode'] == 'nn'
+    S0, W0 = hmf_data(cfg['data'], nn, cfg['mask'])
+
+    def make(seed):
+        return HMF(S0.copy(), W0.copy(), K=cfg['K'], n_iter=case['n_iter'], seed=seed, nonnegative=nn, epsilon=cfg['eps'])
+
+    def result(h):
+        out = h.solve()
+        return np.array(out['acoeff']), np.array(out['flux'])
+    hist = case['history']
+    try:
+        np.random.seed(HARNESS_RNG_STATE)
+        ref = result(make(cfg['seed']))                      # construct and solve at once
+        np.random.seed(HARNESS_RNG_STATE)
+        a = make(cfg['seed'])
+        if hist == 'draw':
+            np.random.random_sample(3)                        # somebody else uses the global generator (not case generation)
+            outs = [result(a)]
+        elif hist == 'construct-other':
+            make(cfg['seed'] + 1)
+            outs = [result(a)]
+        elif hist == 'solve-other':
+            result(make(cfg['seed'] + 1))
+            outs = [result(a)]
+        elif hist == 'two-same-seed-in-order':
+            b = make(cfg['seed'])
+            outs = [result(a), result(b)]
+        elif hist == 'two-same-seed-reversed':
+            b = make(cfg['seed'])
+            outs = [result(b), result(a)]
+        else:
+            raise KeyError(hist)
+    except Exception as e:
+        return [('HMF.solve:exception:%s' % type(e).__name__, repr(e))], 'exc'
+    bad = []
+    for k, (ac, fl) in enumerate(outs):
+        if not (ac.shape == ref[0].shape and fl.shape == ref[1].shape and np.array_equal(ac, ref[0]) and np.array_equal(fl, ref[1])):
+            bad.append(('HMF.solve:seed-not-reproducible:history=' + hist,
+                        'seed %r: solve #%d after "%s" differs from construct-and-solve-at-once (max |d flux| %.3g)'
+                        % (cfg['seed'], k + 1, hist, float(np.abs(fl - ref[1]).max()) if fl.shape == ref[1].shape else float('nan'))))
+            break
+    return bad, 'ok:hmfseed:%s:%s' % (cfg['mode'], hist)
+
+
 # ====================================================================== pca_solve
 def check_pca(case):
     from pydl.pydlspec2d.spec1d import pca_solve
@@ -727,6 +844,10 @@ def check_case(case):
         return check_chi2(case)
     if f == 'chi2ladder':
         return check_chi2_ladder(case)
+    if f == 'chi2resid':
+        return check_chi2_resid(case)
+    if f == 'hmfseed':
+        return check_hmfseed(case)
     if f == 'pcomp':
         return check_pcomp(case)
     if f == 'hmf':
@@ -782,6 +903,8 @@ def tasks(tier):
     for deg in (1, 2, 3):
         for n in ((30, 60, 100, 200) if not T else (30, 45, 60, 80, 100, 150, 200)):
             t.append({'f': 'chi2ladder', 'deg': deg, 'n': n, 'T': T})
+    for sysname in RESID_SYSTEMS:
+        t.append({'f': 'chi2resid', 'system': sysname, 'T': T})
     # pcomp (the unit menu multiplies the same data matrices by a physical-unit factor)
     U_ALL = [1.0, 1e3, 1e-3, 1e-7, 1e-17]
     t.append({'f': 'pcomp', 'shape': [3, 2], 'alpha': [0, 1, 2], 'first': [], 'units': U_ALL, 'T': T})
@@ -811,6 +934,9 @@ def tasks(tier):
     for mode in ('ls', 'nn'):
         for data in datas:
             t.append({'f': 'hmfrun', 'mode': mode, 'data': data, 'T': T})
+    for mode in ('ls', 'nn'):
+        for data in datas[:2]:
+            t.append({'f': 'hmfseed', 'mode': mode, 'data': data, 'T': T})
     for data in datas:
         for nkeep in (1, 2, 3):
             t.append({'f': 'pca', 'data': data, 'nkeep': nkeep, 'T': T})
@@ -878,6 +1004,10 @@ def run_task(task):
             for wk in ('unit', 'alt', 'gaps'):
                 for bk in ('poly', 'bump', 'unit'):
                     _do(acc, {'f': 'chi2ladder', 'deg': deg, 'n': n, 'scol': scol, 'spow': spow, 'wkind': wk, 'bkind': bk}, True)
+    elif f == 'chi2resid':
+        for wk in ('unit', 'alt', 'gaps'):
+            for eps in RESID_EPS:
+                _do(acc, {'f': 'chi2resid', 'system': task['system'], 'wkind': wk, 'eps': eps}, True)
     elif f == 'pcomp':
         r, c = task['shape']
         first = tuple(task['first'])
@@ -906,6 +1036,16 @@ def run_task(task):
                             for n_iter in (1, 2, 3):
                                 case = {'f': 'hmfrun', 'mode': task['mode'], 'data': task['data'], 'K': K, 'eps': eps, 'mask': mask,
                                         'seed': seed, 'n_iter': n_iter}
+                                _do(acc, case, True)
+    elif f == 'hmfseed':
+        for K in (1, 2, 3):
+            for mk in ('none', 'scatter'):
+                for mask in mask_menu(task['data'], mk):
+                    for seed in ((0, 1, 2) if not T else (0, 1, 2, 3, 4, 5)):
+                        for n_iter in ((1,) if not T else (1, 2)):
+                            for hist in SEED_HISTORIES:
+                                case = {'f': 'hmfseed', 'mode': task['mode'], 'data': task['data'], 'K': K, 'eps': None, 'mask': mask,
+                                        'seed': seed, 'n_iter': n_iter, 'history': hist}
                                 _do(acc, case, True)
     elif f == 'pca':
         for mk in ('none', 'scatter', 'pairs', 'single'):
